@@ -7,7 +7,7 @@ from ..interp import Interp
 from ..lib import is_call, loc
 from ..repo import walk_scope
 from ..terms import App, Atom, Obj, Sym, vkey
-from .common import ds, scan
+from .common import ds, dsid, scan
 
 R = "cascade.gateway.router"
 S = "cascade.gateway.server"
@@ -22,119 +22,246 @@ META = {
 }
 
 
-def _router():
-    j1 = Obj(f"{R}.Job", {"socket": Atom("sock1"), "progress": "10.00", "last_seen": 100, "results": {}}, name="job1")
-    j2 = Obj(f"{R}.Job", {"socket": Atom("sock2"), "progress": "20.00", "last_seen": 100, "results": {}}, name="job2")
-    return Obj(f"{R}.JobRouter", {"jobs": {"j1": j1, "j2": j2}, "poller": Atom("poller")}, name="router"), j1, j2
+def _uuid_model(draws):
+    def m(run, a, k, n, f):
+        i = getattr(run, "_u", 0)
+        run._u = i + 1
+        return draws[i] if i < len(draws) else f"extra{i}"
+    return m
+
+
+_INL = lambda f: f.qual.startswith(R + ".") and not f.name.startswith("_spawn")
+_OPQ = {f"{R}._spawn_subprocess", f"{R}._spawn_local", f"{R}._spawn_slurm"}
+
+
+class _Stuck(Exception):
+    pass
+
+
+def _one(paths, what):
+    """The single outcome of a deterministic model step (several paths = the step depends on a value the model cannot know)."""
+    if len(paths) != 1:
+        raise _Stuck(f"{what}: {len(paths)} outcomes " + "; ".join(f"[{', '.join(f'{d.key}={d.value}' for d in p.decisions[-2:])}] -> {p.exit[0]} {vkey(p.exit[1])[:40]}" for p in paths[:4]))
+    return paths[0]
+
+
+def _world0():
+    return {"self.jobs": {}, "self.poller": Atom("poller")}
+
+
+def _spawn(repo, world, draws, all_paths=False):
+    fi = repo.func(f"{R}.JobRouter.spawn_job")
+    ip = Interp(repo, call_models={"uuid.uuid4": _uuid_model(draws), f"{R}._spawn_subprocess": lambda run, a, k, n, f: None},
+                inline=lambda f: _INL(f) or f.qual == "cascade.low.func.next_uuid", opaque=_OPQ, max_while=5)
+    paths = ip.explore(fi, env=world, args={"job_spec": Atom("spec")})
+    if all_paths:
+        return paths
+    p = _one(paths, "spawn_job")
+    if p.exit[0] != "return":
+        raise _Stuck(f"spawn_job ends with {p.exit[0]} {vkey(p.exit[1])[:80]}")
+    return p.exit[1], dict(p.heap)
+
+
+def _router_of(world):
+    return Obj(f"{R}.JobRouter", {k[5:]: v for k, v in world.items() if k.startswith("self.")}, name="router")
+
+
+def _report(repo, world, job_id, progress, ts, results=()):
+    """One controller report through server.handle_controller; returns the paths (each with the world afterwards)."""
+    fi = repo.func(f"{S}.handle_controller")
+    rep = Obj("cascade.controller.report.ControllerReport", {"job_id": job_id, "current_status": progress, "timestamp": ts, "results": list(results)}, name="report")
+    env = {k: v for k, v in world.items() if not k.startswith("self.")}
+    env["jobs"] = _router_of(world)
+    ip = Interp(repo, call_models={"cascade.controller.report.deserialize": lambda run, a, k, n, f: rep}, inline=_INL, opaque=_OPQ)
+    out = []
+    for p in ip.explore(fi, env=env, args={"socket": Sym("ctrl_socket")}):
+        w2 = {k: v for k, v in p.heap.items() if k != "jobs" and not k.startswith("self.")}
+        r2 = p.heap.get("jobs")
+        if isinstance(r2, Obj):
+            w2.update({f"self.{k}": v for k, v in r2.fields.items()})
+        out.append((p, w2))
+    return out
+
+
+def _shown(repo, world, ids):
+    fi = repo.func(f"{R}.JobRouter.progress_of")
+    p = _one(Interp(repo, inline=_INL).explore(fi, env=world, args={"job_ids": list(ids)}), "progress_of")
+    if p.exit[0] != "return" or not isinstance(p.exit[1], dict):
+        raise _Stuck(f"progress_of ends with {p.exit[0]} {vkey(p.exit[1])[:80]}")
+    return p.exit[1]
+
+
+def _fetch(repo, world, jid, d):
+    fi = repo.func(f"{R}.JobRouter.get_result")
+    p = _one(Interp(repo, inline=_INL).explore(fi, env=world, args={"job_id": jid, "dataset_id": d}), "get_result")
+    return p.exit
+
+
+def _two_jobs(repo):
+    j1, w = _spawn(repo, _world0(), ["j1"])
+    j2, w = _spawn(repo, w, ["j1", "j2"])
+    return j1, j2, w
 
 
 def r1_progress(ctx):
+    """C18.R1: report histories through the real entry points (spawn_job -> handle_controller* -> progress_of): the progress shown is
+    the one of the progress report with the greatest timestamp; result-only reports and the shutdown notice neither change it nor
+    make later-arriving older-than-them progress reports look stale; the other job is untouched."""
     repo = ctx.repo
-    fi = repo.func(f"{R}.JobRouter.maybe_update")
-    ctx.analysed(fi.qual)
+    fi = repo.func(f"{S}.handle_controller")
+    for q in (fi.qual, f"{R}.JobRouter.spawn_job", f"{R}.JobRouter.progress_of"):
+        ctx.analysed(q)
+    if f"{R}.JobRouter.maybe_update" in repo.funcs:
+        ctx.analysed(f"{R}.JobRouter.maybe_update")
+    L = loc(fi)
+    D = dsid("T", "0")
+    hist = [
+        [("50.00", 1, ())],
+        [("50.00", 100, ())],
+        [("50.00", 200, ()), ("30.00", 100, ())],
+        [("30.00", 100, ()), ("50.00", 200, ())],
+        [("50.00", 200, ()), (None, 300, ((D, b"x"),))],
+        [("50.00", 200, ()), ("Shutdown", 300, ())],
+        [("50.00", 200, ()), (None, 300, ((D, b"x"),)), ("60.00", 250, ())],
+        [("50.00", 200, ()), (None, 300, ()), ("60.00", 250, ())],
+        [("50.00", 200, ()), ("Shutdown", 300, ()), ("60.00", 250, ())],
+        [(None, 300, ((D, b"x"),)), ("50.00", 200, ())],
+        [("50.00", 200, ()), ("70.00", 200, ())],
+    ]
     table = []
-    for prog in (None, "Shutdown", "50.00"):
-        for ts in (50, 100, 200):
-            router, j1, j2 = _router()
-            paths = Interp(repo).explore(fi, args={"self": router, "job_id": "j1", "progress": prog, "timestamp": ts})
-            ctx.evals(len(paths))
-            atoms = {"progress": prog, "timestamp_vs_last_seen(100)": ts}
-            for p in paths:
-                if p.exit[0] != "return":
-                    ctx.violation("C18.R1", fi.qual, loc(fi), "maybe_update completes", f"{atoms}: raises {vkey(p.exit[1])[:80]}", row=atoms)
-                    continue
-                # objects were deep-copied for the run: find them through the effects' receiver
-                jobs_after = None
-                for e in p.effects:
-                    pass
-                after = _find_job(p, "job1")
-                other = _find_job(p, "job2")
-                pr, ls = (after.fields["progress"], after.fields["last_seen"]) if after is not None else ("10.00", 100)
-                table.append({**atoms, "progress_after": pr, "last_seen_after": ls})
-                newer = prog == "50.00" and ts > 100
-                dontcare = prog == "50.00" and ts == 100
-                if other is not None and (other.fields["progress"], other.fields["last_seen"]) != ("20.00", 100):
-                    ctx.violation("C18.R1", fi.qual, loc(fi), "other job untouched", f"{atoms}: a report for j1 changed job j2", row=atoms)
-                elif newer and (pr, ls) != ("50.00", ts):
-                    ctx.violation("C18.R1", fi.qual, loc(fi), "newer progress kept with its timestamp",
-                                  f"{atoms}: after a newer progress report the job shows progress={pr!r} last_seen={ls} (expected '50.00', {ts}); "
-                                  f"if the timestamp is not recorded a late older report overwrites a newer one", row=atoms)
-                elif not newer and not dontcare and (pr, ls) != ("10.00", 100):
-                    ctx.violation("C18.R1", fi.qual, loc(fi), "stale / non-progress report ignored",
-                                  f"{atoms}: the job shows progress={pr!r} last_seen={ls} afterwards; an older, result-only or shutdown report must "
-                                  f"change neither the shown progress nor the recorded timestamp (else newer progress reports are dropped later)", row=atoms)
-                elif dontcare and (pr, ls) not in (("10.00", 100), ("50.00", 100)):
-                    ctx.violation("C18.R1", fi.qual, loc(fi), "equal timestamp", f"{atoms}: inconsistent update progress={pr!r} last_seen={ls}", row=atoms)
-                else:
-                    ctx.ok("C18.R1", loc(fi), f"progress update | {atoms} -> progress={pr!r} last_seen={ls}")
+    try:
+        j1, j2, w0 = _two_jobs(repo)
+        start = _shown(repo, w0, [j1, j2])
+    except _Stuck as e:
+        ctx.undecided("C18.R1", L, f"cannot set up two model jobs through spawn_job: {e}")
+        return
+    for h in hist:
+        # specification: the set of admissible shown values
+        best, allowed = None, {start[j1]}
+        for prog, ts, _ in h:
+            if prog is None or prog == "Shutdown":
+                continue
+            if best is None or ts > best:
+                best, allowed = ts, {prog}
+            elif ts == best:
+                allowed = allowed | {prog}
+        label = " ; ".join(f"{'result-only' if pr is None else pr}@{ts}" for pr, ts, _ in h)
+        worlds = [(w0, [])]
+        bad = None
+        for prog, ts, res in h:
+            nxt = []
+            for w, trail in worlds:
+                for p, w2 in _report(repo, w, j1, prog, ts, res):
+                    ctx.evals(1)
+                    if p.exit[0] != "return":
+                        bad = f"the report {prog}@{ts} makes handle_controller end with {p.exit[0]} {vkey(p.exit[1])[:80]}"
+                    nxt.append((w2, trail + [d for d in p.decisions]))
+            worlds = nxt
+        if bad:
+            ctx.violation("C18.R1", fi.qual, L, f"history {label}", f"history [{label}] for job j1: {bad}", row={"history": label})
+            continue
+        verdict = "ok"
+        for w, trail in worlds:
+            try:
+                sh = _shown(repo, w, [j1, j2])
+            except _Stuck as e:
+                ctx.undecided("C18.R1", L, f"history [{label}]: {e}")
+                verdict = "undecided"
+                break
+            cond = ("" if not trail else " (on the path where " + ", ".join(f"{d.key} is {d.value}" for d in trail[:3]) + ")")
+            table.append({"history": label, "shown": vkey(sh.get(j1)), "admissible": sorted(allowed)})
+            if sh.get(j1) not in allowed:
+                ctx.violation("C18.R1", fi.qual, L, f"history {label}",
+                              f"after the reports [{label}] for job j1 the gateway shows {vkey(sh.get(j1))}{cond}; the progress report with the greatest timestamp "
+                              f"carries {sorted(allowed)} — older, result-only and shutdown reports must neither overwrite it nor advance the job's time mark", row={"history": label})
+                verdict = "bad"
+                break
+            if sh.get(j2) != start[j2]:
+                ctx.violation("C18.R1", fi.qual, L, "other job untouched", f"reports for j1 [{label}] change what is shown for j2: {vkey(sh.get(j2))}", row={"history": label})
+                verdict = "bad"
+                break
+        if verdict == "ok":
+            ctx.ok("C18.R1", L, f"history [{label}] -> shows {sorted(allowed)}")
     ctx.table("C18.R1", table)
-    # who else writes Job.progress / last_seen
-    n = 0
-    for attr in ("progress", "last_seen"):
-        for f2, node, kind, det in scan().attr_sites(attr, ("cascade.gateway",)):
-            if kind in ("store", "aug"):
-                n += 1
-                from .common import helper_of as _helper_of
-                if f2.qual != fi.qual and not _helper_of(repo, f2.qual, {fi.qual}):
-                    ctx.violation("C18.R1", f2.qual, loc(f2, node), f"writer of Job.{attr}", f"{f2.qual} writes Job.{attr} outside maybe_update's timestamp guard")
-    ctx.floor("C18.R1.writers", n, 1)
-
-
-def _find_job(p, name):
-    for e in p.effects:
-        for v in list(e.data.values()):
-            if isinstance(v, Obj) and v.name == name:
-                return v
-            if isinstance(v, Obj) and v.name == "router":
-                for j in v.fields["jobs"].values():
-                    if j.name == name:
-                        return j
-    return None
+    # nothing on the frontend side changes what is shown
+    from .common import callers_of
+    fe = repo.func(f"{S}.handle_fe")
+    try:
+        for p, w in _report(repo, w0, j1, "50.00", 100):
+            before = _shown(repo, w, [j1, j2])
+            again = _shown(repo, w, [])
+            if {k: again.get(k) for k in (j1, j2)} != before:
+                ctx.violation("C18.R1", f"{R}.JobRouter.progress_of", loc(repo.func(f"{R}.JobRouter.progress_of")), "all-jobs query agrees",
+                              f"progress_of([]) reports {vkey(again)} but progress_of([j1, j2]) reports {vkey(before)}")
+            else:
+                ctx.ok("C18.R1", L, "progress_of([]) lists every job with the same values")
+    except _Stuck as e:
+        ctx.undecided("C18.R1", L, f"all-jobs query: {e}")
 
 
 def r2_results(ctx):
+    """C18.R2: a result is returned exactly as uploaded and only for the job and dataset it was uploaded for (observed through
+    handle_controller -> get_result on two jobs created by spawn_job; the two datasets have colliding printed forms)."""
     repo = ctx.repo
     fi = repo.func(f"{S}.handle_controller")
-    ctx.analysed(fi.qual)
-    D, D2 = ds("D", "T"), ds("D2", "T2")
-    router, j1, j2 = _router()
-    rep = Obj("cascade.controller.report.ControllerReport", {"job_id": "j1", "current_status": "50.00", "timestamp": 200,
-                                                              "results": [(D, b"x"), (D2, b"y")]})
-    seen = {}
-
-    def des(run, args, kwargs, node, fr):
-        return seen.setdefault("rep", rep)
-    ip = Interp(repo, call_models={"cascade.controller.report.deserialize": des}, inline=lambda f: f.qual.startswith(f"{R}.JobRouter."))
-    paths = ip.explore(fi, args={"jobs": router})
-    ctx.evals(len(paths))
-    for p in paths:
-        a1, a2 = _find_job(p, "job1"), _find_job(p, "job2")
-        if p.exit[0] != "return" or a1 is None:
-            ctx.violation("C18.R2", fi.qual, loc(fi), "report handled", f"a well-formed controller report for a known job makes handle_controller end with {p.exit[0]} {vkey(p.exit[1])[:80] if p.exit[0] == 'raise' else ''}")
-            continue
-        if a1.fields["results"] != {D: b"x", D2: b"y"} or (a2 is not None and a2.fields["results"]):
-            ctx.violation("C18.R2", fi.qual, loc(fi), "result attribution",
-                          f"report of job j1 with results D->x, D2->y: j1.results={vkey(a1.fields['results'])} j2.results={vkey(a2.fields['results']) if a2 else '?'}")
-        elif a1.fields["progress"] != "50.00":
-            ctx.violation("C18.R2", fi.qual, loc(fi), "progress forwarded", f"the report's progress is not applied to its job: {a1.fields['progress']!r}")
-        else:
-            ctx.ok("C18.R2", loc(fi), "each (dataset, bytes) of the report stored under the report's job only; progress applied to that job")
     g = repo.func(f"{R}.JobRouter.get_result")
+    ctx.analysed(fi.qual)
     ctx.analysed(g.qual)
-    router, j1, j2 = _router()
-    j1.fields["results"][D] = b"mine"
-    j2.fields["results"][D] = b"other"
-    for jid, want in (("j1", b"mine"), ("j2", b"other")):
-        ps = Interp(repo).explore(g, args={"self": router, "job_id": jid, "dataset_id": D})
-        if [p.exit for p in ps] != [("return", want)]:
-            ctx.violation("C18.R2", g.qual, loc(g), "result lookup", f"get_result({jid}, D) returns {[vkey(p.exit[1]) for p in ps]}, expected {want!r}")
+    L = loc(fi)
+    D1, D2, D3 = dsid("a.b", "c"), dsid("a", "b.c"), dsid("z", "0")
+    try:
+        j1, j2, w0 = _two_jobs(repo)
+        steps = _report(repo, w0, j1, "50.00", 200, ((D1, b"x"), (D3, b"y")))
+        if len(steps) != 1 or steps[0][0].exit[0] != "return":
+            ctx.violation("C18.R2", fi.qual, L, "report handled", f"a well-formed controller report for a known job makes handle_controller end with "
+                          f"{[(p.exit[0], vkey(p.exit[1])[:60]) for p, _ in steps]}")
+            return
+        w = steps[0][1]
+        want = {(j1, "D1"): ("return", b"x"), (j1, "D3"): ("return", b"y"), (j1, "D2"): "raise", (j2, "D1"): "raise", (j2, "D3"): "raise"}
+        dsn = {"D1": D1, "D2": D2, "D3": D3}
+        okk = True
+        for (jid, dn), exp in want.items():
+            got = _fetch(repo, w, jid, dsn[dn])
+            ctx.evals(1)
+            good = (got[0] == "raise") if exp == "raise" else (got == exp)
+            if not good:
+                ctx.violation("C18.R2", g.qual, loc(g), f"result of ({'own' if jid == j1 else 'other'} job, {dn})",
+                              f"job j1 uploaded D1=DatasetId('a.b','c')->x and D3->y; get_result({jid}, {dn}={vkey(dsn[dn])}) gives {got[0]} {vkey(got[1])[:60]}, expected "
+                              f"{'an error (never uploaded for that job/dataset)' if exp == 'raise' else exp[1]!r}", row={"job": jid, "dataset": dn})
+                okk = False
+        sh = _shown(repo, w, [j1])
+        if sh.get(j1) != "50.00":
+            ctx.violation("C18.R2", fi.qual, L, "progress forwarded", f"the report's progress is not applied to its job: shown {vkey(sh.get(j1))}")
+            okk = False
+        # a second upload for the other job does not disturb the first
+        steps2 = _report(repo, w, j2, None, 300, ((D1, b"other"),))
+        if len(steps2) == 1 and steps2[0][0].exit[0] == "return":
+            w2 = steps2[0][1]
+            a, b = _fetch(repo, w2, j1, D1), _fetch(repo, w2, j2, D1)
+            if a != ("return", b"x") or b != ("return", b"other"):
+                ctx.violation("C18.R2", g.qual, loc(g), "same dataset id in two jobs", f"j1 uploaded D1->x, then j2 uploaded D1->other: get_result(j1, D1) = {vkey(a[1])[:40]}, "
+                              f"get_result(j2, D1) = {vkey(b[1])[:40]}")
+                okk = False
         else:
-            ctx.ok("C18.R2", loc(g), f"get_result({jid}, D) returns that job's bytes")
-    ps = Interp(repo).explore(g, args={"self": router, "job_id": "j1", "dataset_id": D2})
-    if any(p.exit[0] != "raise" for p in ps):
-        ctx.violation("C18.R2", g.qual, loc(g), "unknown dataset", "get_result for a dataset the job never uploaded returns a value instead of failing")
-    else:
-        ctx.ok("C18.R2", loc(g), "unknown dataset -> error")
+            ctx.violation("C18.R2", fi.qual, L, "result-only report handled", f"a result-only report ends {[(p.exit[0], vkey(p.exit[1])[:50]) for p, _ in steps2]}")
+            okk = False
+        if okk:
+            ctx.ok("C18.R2", L, "results: returned as uploaded, per job and per dataset (colliding printed forms kept apart), unknown -> error")
+    except _Stuck as e:
+        ctx.undecided("C18.R2", L, str(e))
+    # unknown job -> error, nothing created
+    try:
+        j1, j2, w0 = _two_jobs(repo)
+        for p, w in _report(repo, w0, "nobody", "50.00", 100, ((D1, b"x"),)):
+            if p.exit[0] == "return":
+                sh = _shown(repo, w, [])
+                if "nobody" in sh:
+                    ctx.violation("C18.R2", fi.qual, L, "report for an unknown job", "a report naming an unknown job creates a job entry")
+                    break
+        else:
+            ctx.ok("C18.R2", L, "a report for an unknown job creates no job")
+    except _Stuck as e:
+        ctx.undecided("C18.R2", L, str(e))
 
 
 def r3_job_table(ctx):
@@ -152,55 +279,42 @@ def r3_job_table(ctx):
     ctx.floor("C18.R3.sites", n, 2)
     fi = repo.func(f"{R}.JobRouter.spawn_job")
     ctx.analysed(fi.qual)
-
-    def uuid4(run, a, k, n, f):
-        run.model_u = getattr(run, "model_u", 0) + 1
-        return "taken" if run.model_u == 1 else f"fresh{run.model_u}"
-    router, j1, j2 = _router()
-    router.fields["jobs"] = {"taken": j1}
-    ip = Interp(repo, call_models={"uuid.uuid4": uuid4, f"{R}._spawn_subprocess": lambda run, a, k, n, f: None},
-                inline={"cascade.low.func.next_uuid"}, max_while=4)
-    paths = ip.explore(fi, args={"self": router})
-    ctx.evals(len(paths))
-    for p in paths:
-        if p.exit[0] != "return":
-            ctx.undecided("C18.R3", loc(fi), f"spawn_job on the model router: {p.exit[0]} {vkey(p.exit[1])[:80]}")
-            continue
-        jid = p.exit[1]
-        st = [e for e in p.effects if e.kind == "store" and e.data.get("subscript") and e.data.get("index") == jid and isinstance(e.data.get("base"), dict)]
-        if jid == "taken" or not isinstance(jid, str):
-            ctx.violation("C18.R3", fi.qual, loc(fi), "fresh job id",
-                          f"with a job 'taken' registered and the id generator drawing 'taken' first, spawn_job returns {vkey(jid)}: an id already in use must be redrawn (ids are never reused)")
-            continue
-        if len(st) != 1:
-            ctx.violation("C18.R3", fi.qual, loc(fi), "job registered under its id", "the new job is not stored under the id that is returned")
-            continue
-        v = st[0].data["value"]
-        fresh = None
-        if isinstance(v, Obj) and v.cls == f"{R}.Job":
-            res = v.fields.get("results")
-            fresh = isinstance(res, dict) and not res
-        elif isinstance(v, App) and v.fname.rsplit(".", 1)[-1] in ("replace", "copy", "model_copy"):
-            res = v.kw("results")
-            fresh = isinstance(res, dict) and not res
-        jobs_after = st[0].data["base"]
-        ls0 = v.fields.get("last_seen") if isinstance(v, Obj) else None
-        pr0 = v.fields.get("progress") if isinstance(v, Obj) else None
-        if isinstance(v, Obj) and not (isinstance(ls0, (int, float)) and not isinstance(ls0, bool) and ls0 <= 0):
-            ctx.violation("C18.R3", fi.qual, loc(fi, st[0].node), "initial last_seen precedes every report",
-                          f"a new job starts with last_seen={vkey(ls0)[:60]}; report timestamps come from the controller's own clock, so the initial mark must be a constant below every "
-                          f"possible timestamp (e.g. -1) — otherwise genuine progress reports are dropped as 'older'")
-            continue
-        if fresh is None:
-            ctx.undecided("C18.R3", loc(fi, st[0].node), f"cannot see how the new Job is built: {vkey(v)[:120]}")
-        elif not fresh:
-            ctx.violation("C18.R3", fi.qual, loc(fi, st[0].node), "fresh result container per job",
-                          f"the new job is built as {vkey(v)[:140]}: its results mapping is not a fresh empty dict created for this job, so jobs "
-                          f"share uploaded results (a result is returned for a job it was not uploaded for)")
-        elif "taken" not in jobs_after:
-            ctx.violation("C18.R3", fi.qual, loc(fi), "existing jobs kept", "registering a new job drops an existing one")
-        else:
-            ctx.ok("C18.R3", loc(fi, st[0].node), "new job: id redrawn until unused, stored under it, fresh empty results mapping, existing jobs kept")
+    L = loc(fi)
+    try:
+        j1, w1 = _spawn(repo, _world0(), ["j1"])
+        paths = _spawn(repo, w1, ["j1", "j1", "j2"], all_paths=True)
+        ctx.evals(len(paths))
+        for p in paths:
+            if p.exit[0] != "return":
+                ctx.undecided("C18.R3", L, f"spawn_job on the model router: {p.exit[0]} {vkey(p.exit[1])[:80]}")
+                continue
+            jid = p.exit[1]
+            if jid == j1 or not isinstance(jid, str):
+                ctx.violation("C18.R3", fi.qual, L, "fresh job id",
+                              f"with job {j1!r} registered and the id generator drawing {j1!r} first, spawn_job returns {vkey(jid)}: an id already in use must be redrawn (ids are never reused)")
+                continue
+            sh = _shown(repo, dict(p.heap), [])
+            if set(sh) != {j1, jid}:
+                ctx.violation("C18.R3", fi.qual, L, "job registered under its id, existing jobs kept",
+                              f"after spawning a second job (returned id {jid!r}) the gateway knows the jobs {sorted(map(str, sh))}; expected {sorted([j1, jid])}")
+                continue
+            # jobs do not share anything: an upload for one is invisible for the other, the first job's state survives
+            D = dsid("T", "0")
+            steps = _report(repo, dict(p.heap), jid, "40.00", 100, ((D, b"x"),))
+            if len(steps) != 1 or steps[0][0].exit[0] != "return":
+                ctx.undecided("C18.R3", L, f"cannot feed a report to the freshly spawned job: {[(q.exit[0], vkey(q.exit[1])[:60]) for q, _ in steps]}")
+                continue
+            w = steps[0][1]
+            other = _fetch(repo, w, j1, D)
+            sh2 = _shown(repo, w, [j1, jid])
+            if other[0] != "raise" or sh2.get(j1) != sh.get(j1):
+                ctx.violation("C18.R3", fi.qual, L, "fresh state per job",
+                              f"a report (progress 40.00, result D) for the new job {jid!r} is visible on the older job {j1!r}: get_result({j1}, D) -> {other[0]} "
+                              f"{vkey(other[1])[:40]}, progress shown {vkey(sh2.get(j1))} (was {vkey(sh.get(j1))}) — jobs must not share their result container or progress")
+                continue
+            ctx.ok("C18.R3", L, "new job: id redrawn until unused, registered, existing jobs kept, state not shared with other jobs")
+    except _Stuck as e:
+        ctx.undecided("C18.R3", L, str(e))
 
 
 def r4_frontend(ctx):
